@@ -328,6 +328,18 @@ fn wild_draw(w: i32, h: i32) -> BoxedStrategy<Op> {
     prop_oneof![
         6 => (wild_path(ext), wild_src(ext), wild_opts()).prop_map(|(p, s, o)| Op::Fill(p, s, o)),
         4 => (wild_path(ext), wild_src(ext), wild_opts()).prop_flat_map(|(p, s, o)| { let l = path_len(&p) as f32; (Just(p), Just(s), wild_style(l), Just(o)) }).prop_map(|(p, s, st, o)| Op::Stroke(p, s, st, o)),
+        // dashes far smaller than the spacing of f32 values at the path's coordinates (a short piece of a drawing
+        // thousands of units from the origin, dashed finely): a step of one dash does not move the point at all
+        1 => (prop_oneof![1024.0f32..3900.0, -3900.0f32..-1024.0], prop_oneof![1024.0f32..3900.0, -3900.0f32..-1024.0], 0.0f32..360.0, 0.02f32..0.5, 1000.0f32..20000.0, any::<bool>(), wild_src(ext), wild_opts()).prop_map(|(ax, ay, dir, len, ndash, closed, s, o)| {
+            let r = (dir as f64).to_radians();
+            let (bx, by) = (ax as f64 + len as f64 * r.cos(), ay as f64 + len as f64 * r.sin());
+            let mut ops = vec![POp::M(ax, ay), POp::L(bx as f32, by as f32)];
+            if closed {
+                ops.push(POp::Z);
+            }
+            let e = len / ndash;
+            Op::Stroke(PathSpec { ops, evenodd: false }, s, StyleSpec { width: Fl(1.0), cap: 0, join: 0, miter: Fl(10.0), dash: vec![Fl(e), Fl(e * 0.7)], offset: Fl(0.0) }, o)
+        }),
         // hairpins: two segments that reverse direction to within 1e-5..1e-3 rad of 180 degrees (not exactly), stroked
         // wide with a miter join: the dot product of the two unit normals rounds to either side of -1 / +1, the
         // miter-or-bevel decision divides by what is left
